@@ -305,6 +305,8 @@ CONSTANTS
   Free = %(free)s
   NTargets = 4
   NAttrs = %(nattrs)d
+  NDimProps = %(ndp)d
+  NDimShapes = %(nds)d
   NSnips = %(nsnips)d
   NLex = %(nlex)d
   MaxLine = %(maxline)d
@@ -338,7 +340,7 @@ CHECK_DEADLOCK TRUE
 def doc_cfg(maxprod, maxwords, palette=False, free=False, variants=True, maxline=12, minout=60, ordinary=False):
     return DOC_CFG % dict(maxprod=maxprod, maxwords=maxwords, palette=str(palette).upper(), free=str(free).upper(),
                           variants=str(variants).upper(), maxline=maxline, minout=minout, ordinary=str(ordinary).upper(),
-                          nattrs=len(W.ATTRS) if palette else 0, nsnips=len(W.SNIPS) if palette else 0,
+                          nattrs=len(W.ATTRS) if palette else 0, ndp=len(W.DIM_PROPS) if palette else 0, nds=len(W.DIM_SHAPES) if palette else 0, nsnips=len(W.SNIPS) if palette else 0,
                           nlex=len(W.LEXEMES) if free else 0)
 
 
